@@ -7,6 +7,7 @@
 //
 //	for k, v := range m { body }        =>  keys snapshotted, ordered by simrt.Order, looked up again
 //	sort.Slice(x, less)                 =>  simrt.UnstableSort(x, less, site)
+//	sql.Open(driver, dsn)               =>  simrt.SQLOpen(driver, dsn)   (statement seam around the daemon's own DSN)
 //
 // Usage: pegsim-instrument <dir of the scratch copy>; prints a JSON report.
 package main
@@ -128,6 +129,15 @@ func main() {
 					n++
 				case *ast.CallExpr:
 					sel, ok := st.Fun.(*ast.SelectorExpr)
+					if ok && sel.Sel.Name == "Open" && len(st.Args) == 2 {
+						if obj, ok := p.TypesInfo.Uses[sel.Sel]; ok && obj.Pkg() != nil && obj.Pkg().Path() == "database/sql" {
+							pos := p.Fset.Position(st.Pos())
+							st.Fun = &ast.SelectorExpr{X: ast.NewIdent("simrt"), Sel: ast.NewIdent("SQLOpen")}
+							sites = append(sites, site{rel, pos.Line, "sql.Open", ""})
+							n++
+						}
+						return true
+					}
 					if !ok || sel.Sel.Name != "Slice" || len(st.Args) != 2 {
 						return true
 					}
@@ -150,6 +160,9 @@ func main() {
 			// "sort" may have become unused
 			if !astutil.UsesImport(f, "sort") {
 				astutil.DeleteImport(p.Fset, f, "sort")
+			}
+			if !astutil.UsesImport(f, "database/sql") {
+				astutil.DeleteImport(p.Fset, f, "database/sql")
 			}
 			var buf bytes.Buffer
 			if err := format.Node(&buf, p.Fset, f); err != nil {
